@@ -248,6 +248,7 @@ var framings = []refframe.Framing{
 	{Name: "split", Split: 0x80},
 	{Name: "strict", Mime: ""},
 	{Name: "strict", Mime: "text/plain"},
+	{Name: "strict", Mime: "Text/X-Caps"}, // compared as given, letter case included
 	{Name: "header", Mime: ""},
 	{Name: "header", Mime: "text/plain"},
 	{Name: "header", Mime: lspMime},
